@@ -109,7 +109,9 @@ func IsCodeField(message proto.Message) bool {
 	if field != nil {
 		allowedKinds := []protoreflect.Kind{protoreflect.EnumKind, protoreflect.StringKind}
 		isValidFieldType := slices.Includes(allowedKinds, field.Kind())
-		return strings.HasSuffix(name, "Code") && isValidFieldType
+		// The wrapper of an element that is itself named "code" is called
+		// CodeType (OperationOutcome.Issue.CodeType, MessageHeader.Response.CodeType).
+		return (strings.HasSuffix(name, "Code") || name == "CodeType") && isValidFieldType
 	}
 	return false
 }
